@@ -169,6 +169,43 @@ pub fn run(p: &[String]) -> Vec<String> {
             c.set_coordinate((3u32, 5u32));
             vec![hex(c.get_formula())]
         }
+        "cell_translate" => {
+            // c0 r0 formula c1 r1
+            let mut c = umya_spreadsheet::Cell::default();
+            c.get_coordinate_mut().set_col_num(u(&p[1]));
+            c.get_coordinate_mut().set_row_num(u(&p[2]));
+            c.set_formula(unhex(&p[3]));
+            c.set_coordinate((u(&p[4]), u(&p[5])));
+            vec![hex(c.get_formula())]
+        }
+        // ---- C08: a formula cell under insert/remove: the crate-private adjustment trait (hook) and, where the
+        // formula cell itself is not hit by the edit, the public workbook-level API
+        "formula_edit" => {
+            // formula own edited op axis p n
+            let (f, own, edited, op, axis, pp, n) = (unhex(&p[1]), unhex(&p[2]), unhex(&p[3]), unhex(&p[4]), unhex(&p[5]), u(&p[6]), u(&p[7]));
+            let mut c = umya_spreadsheet::Cell::default();
+            c.set_formula(f.clone());
+            let (rc, oc, rr, or) = if axis == "col" { (pp, n, 0, 0) } else { (0, 0, pp, n) };
+            va::cell_adjust_with_2sheet(&mut c, &own, &edited, op == "insert", &rc, &oc, &rr, &or);
+            let mut out = vec![hex(c.get_formula())];
+            // public path: formula cell parked before the band (needs p > 1)
+            if pp > 1 {
+                let mut book = umya_spreadsheet::new_file_empty_worksheet();
+                for name in ["Data", "Other", "My Sheet", "it's"] {
+                    book.new_sheet(name).unwrap();
+                }
+                book.get_sheet_by_name_mut(&own).unwrap().get_cell_mut((1, 1)).set_formula(f);
+                match (op.as_str(), axis.as_str()) {
+                    ("insert", "row") => book.insert_new_row(&edited, &pp, &n),
+                    ("insert", "col") => book.insert_new_column_by_index(&edited, &pp, &n),
+                    ("remove", "row") => book.remove_row(&edited, &pp, &n),
+                    ("remove", "col") => book.remove_column_by_index(&edited, &pp, &n),
+                    _ => panic!("bad op"),
+                }
+                out.push(hex(book.get_sheet_by_name(&own).unwrap().get_cell((1, 1)).unwrap().get_formula()));
+            }
+            out
+        }
         // ---- C09
         "parse_render" => vec![hex(&va::parse_render(&unhex(&p[1])))],
         "parse_tokens" => {
